@@ -88,6 +88,18 @@ Error BaseEmitHelper::emit_arg_move(const Reg& dst_, TypeId dst_type_id, const O
 // BaseEmitHelper - EmitArgsAssignment
 // ===================================
 
+// Tests whether a variable that already is in its destination register still has to be sign or zero extended.
+static ASMJIT_INLINE bool needs_extension_in_place(const FuncArgsContext::Var& var) noexcept {
+  if (!var.out.is_reg() || RegUtils::group_of(var.out.reg_type()) != RegGroup::kGp) {
+    return false;
+  }
+
+  TypeId dt = var.out.type_id();
+  TypeId st = var.cur.type_id();
+
+  return dt != TypeId::kVoid && st != TypeId::kVoid && TypeUtils::size_of(dt) > TypeUtils::size_of(st);
+}
+
 ASMJIT_FAVOR_SIZE Error BaseEmitHelper::emit_args_assignment(const FuncFrame& frame, const FuncArgsAssignment& args) {
   using Var = FuncArgsContext::Var;
   using WorkData = FuncArgsContext::WorkData;
@@ -268,11 +280,24 @@ EmitMove:
 
               wd.swap(var_id, cur_id, alt_id, out_id);
               cur.set_reg_id(out_id);
-              var.mark_done();
               alt_var.cur.set_reg_id(cur_id);
 
+              // Both variables are where they should be, however, the swap only exchanged the content of the registers.
+              // If a variable needs a sign or zero extension it's not done yet - it will be extended in place.
+              if (!needs_extension_in_place(var)) {
+                var.mark_done();
+              }
+              else {
+                work_flags |= kWorkPending;
+              }
+
               if (alt_var.out.is_initialized()) {
-                alt_var.mark_done();
+                if (!needs_extension_in_place(alt_var)) {
+                  alt_var.mark_done();
+                }
+                else {
+                  work_flags |= kWorkPending;
+                }
               }
               work_flags |= kWorkDidSome;
             }
